@@ -46,7 +46,7 @@ RECIPES = {
         level="model_checking",
         monitors={"C01"},
         mc=[MC_QM, MC_CLEAN],
-        runs=[dict(cmd="run", gen="restarts:120,gc-heavy:20,big:8,many-queues:8,names:8,aim-gc:60,aim-roll:30,aim-block:20,aim-batch:10", policy="always_flush"),
+        runs=[dict(cmd="run", gen="restarts:120,gc-heavy:20,big:8,many-queues:8,names:8,aim-gc:60,aim-roll:30,aim-block:20,aim-batch:10,aim-pin:20", policy="always_flush"),
               dict(cmd="run", gen="restarts:30,gc-heavy:6", policy="do_nothing,always_fsync,on_delay_long_flush"),
               dict(cmd="run", genreal="GEN_Wal.cfg", genreal_thorough="GEN_Wal_5.cfg")],
         rule="state after every Drop+open compared with QueueMap's state before it; non-trivial = restarts executed",
@@ -108,7 +108,7 @@ RECIPES = {
         level="model_checking",
         monitors={"C06"},
         mc=[MC_CLEAN],
-        runs=[dict(cmd="run", gen="gc-heavy:40,many-queues:12,big:10,restarts:20,aim-roll:80,aim-gc:40", policy="always_flush"),
+        runs=[dict(cmd="run", gen="gc-heavy:40,many-queues:12,big:10,restarts:20,aim-roll:80,aim-gc:40,aim-pin:30", policy="always_flush"),
               dict(cmd="run", gen="gc-heavy:10", policy="do_nothing,always_fsync"),
               dict(cmd="run", genreal="GEN_Wal.cfg", genreal_thorough="GEN_Wal_5.cfg")],
         rule="after every truncate / delete / open of crash-free scripts: real readdir is a contiguous run ending at "
@@ -120,7 +120,7 @@ RECIPES = {
         level="model_checking",
         monitors={"C02"},
         mc=[MC_CRASH],
-        runs=[dict(cmd="run", gen="small:24,gc-heavy:8,batch:8,big:3,restarts:6,aim-gc:8,aim-roll:6,aim-batch:4,aim-block:4", policy="always_flush",
+        runs=[dict(cmd="run", gen="small:24,gc-heavy:8,batch:8,big:3,restarts:6,aim-gc:8,aim-roll:6,aim-batch:4,aim-block:4,aim-pin:10", policy="always_flush",
                    opts={"crash": "process", "tears": "aimed", "cont": True, "depth2": True, "max-points": "600"},
                    opts_thorough={"crash": "process", "tears": "all", "cont": True, "depth2": True, "max-points": "6000"},
                    thorough_factor=6),
@@ -136,7 +136,7 @@ RECIPES = {
         level="model_checking",
         monitors={"C03"},
         mc=[MC_POLICY, MC_POLICY_FSYNC],
-        runs=[dict(cmd="run", gen="small:16,gc-heavy:6,persist:16,big:2",
+        runs=[dict(cmd="run", gen="small:16,gc-heavy:6,persist:16,big:2,aim-pin:4,aim-block:4,aim-gc:4",
                    policy="do_nothing,on_delay_long_fsync,always_flush,always_fsync",
                    opts={"crash": "both", "tears": "aimed", "cont": True, "max-points": "300"},
                    opts_thorough={"crash": "both", "tears": "aimed", "cont": True, "max-points": "3000"},
@@ -243,7 +243,7 @@ RECIPES = {
         level="model_checking",
         monitors={"C18"},
         mc=[MC_QM],
-        runs=[dict(cmd="pair", gen="gc-heavy:16,many-queues:6,small:20,idle:10,aim-gc:30,aim-roll:10,recreate:10", policy="always_flush",
+        runs=[dict(cmd="pair", gen="gc-heavy:16,many-queues:6,small:20,idle:10,aim-gc:30,aim-roll:10,recreate:10,aim-pin:10", policy="always_flush",
                    opts={"crash": True, "max-points": "40"}, opts_thorough={"crash": True, "max-points": "400"}, thorough_factor=10)],
         rule="for every script and every queue q: the full run and its projection onto q (restarts kept) agree on every "
              "result of a call addressed to q and on q's content after each such call and each restart; crash variant: "
